@@ -256,7 +256,7 @@ def gen_case(rng, tier, index):
         return {"kind": "roundtrip", "ops": [["J1", ["\ud800\udfff", None]]]}
     if index == 6:
         # one record file of more than a mebibyte (32000 short records): larger than any block a reader may work in
-        return {"kind": "file", "cls": "C1", "records": [["C1", [i, float(i % 97), f"r{i}"]] for i in range(32000)], "ops": [],
+        return {"kind": "file", "cls": "C1", "records": [["C1", [i, float(i % 97), f"r{i}" + "x" * 30]] for i in range(32000)], "ops": [],
                 "reads": rng.randrange(1 << 30), "final_nl": True, "big": True}
     if index % 2 == 0:
         return {"kind": "roundtrip", "ops": [gen_record(rng, rng.choice(names)) for _ in range(40)],
